@@ -4,6 +4,8 @@ import builtins
 import hashlib
 import io
 import locale
+import random as _random
+import tempfile as _tempfile
 import os
 import sys
 import warnings
@@ -64,6 +66,10 @@ def fingerprint():
         "io_open": id(io.open),
         "dir_parser": id(getattr(D, "DEFAULT_PARSER", None)),
         "warnings_filters": (len(warnings.filters), repr(warnings.filters[:3])),
+        "environ": hashlib.sha256(repr(sorted(os.environ.items())).encode()).hexdigest()[:16],
+        "sys_path": hashlib.sha256(repr(sys.path).encode()).hexdigest()[:16],
+        "py_random": hashlib.sha256(repr(_random.getstate()).encode()).hexdigest()[:16],
+        "np_random": hashlib.sha256(np.random.get_state()[1].tobytes()).hexdigest()[:16] + ":%d" % np.random.get_state()[2],
     }
 
 
